@@ -2,7 +2,26 @@
 import json
 props = [json.loads(l) for l in open("/verif/properties.jsonl")]
 E1 = "symbolic execution of the real Python code with an SMT solver (CrossHair/z3), bounded box, partitioned; counterexamples replayed on the plain interpreter"
+ENUM = "solver-enumerated selector space (CrossHair/z3 path enumeration; 'Confirmed over all paths' = every case of the box was run), each case executed concretely on the real code and compared with an independent oracle; counterexamples replayed on the plain interpreter"
 CLAIMED = {
+    "C04": dict(text="all histories of 3 connection operations (+completion) x {call, setattr, connect, replace, disconnect} x two ports (bus port, bundle port) x 8 / 6 kinds of connectable on an Instance (thorough: also InstanceArray); the exported package must equal the reference semantics of the FINAL mapping only",
+                note="all inputs are selectors: the solver's role is exhaustive enumeration; oracle vlib/dsl.py", tech=ENUM),
+    "C07": dict(text="all histories of 2 (quick) / 3 calls x {elaborate, to_proto, netlist} x any non-empty subset of a 4-module DAG (shared sub-modules, bundle ports, anonymous bundle, port reference), in either order, alone or as a list; bytes equal those of a twin without history; second export identical; late parents see bundle-level ports; elaborated modules refuse additions",
+                note="separate processes are approximated by resetting hdl21's process-global caches and building fresh objects", tech=ENUM),
+    "C08": dict(text="a raising user pass at every position of the default pass list x every module of a shared DAG, every C02 fault class detected inside checking and rewriting passes, and a generator body raising 1..3 times; continuations: retry unchanged (same error), unrelated design, design sharing sub-modules, repair and retry; no later call returns a package a fresh twin would not give",
+                note="selectors only; 'same error' compares exception type and message with file paths / addresses removed", tech=ENUM),
+    "C10": dict(text="bundle trees of depth 3 with fan-out, 7 leaf kinds per level, flips at every level by flag and by flipped(), role of the instance, leaf widths, port vs internal: exact set of (name, width, direction) of the flattened ports against an independent parity / role oracle, and leaf-by-leaf pairing of a parent's bundle with the child's bundle port",
+                note="flags, kinds and small widths: solver-enumerated", tech=ENUM),
+    "C12": dict(text="the iteration order of every set created by the connectable classes is a SYMBOLIC choice vector (vlib/nondet.py) on 8 designs exercising each set-iterating rewriting site; serialized package and spice / spectre / verilog text must equal those of the canonical order; a counterexample is reported only if real sub-processes under different PYTHONHASHSEED values differ byte-wise",
+                note="any order of a small id-/str-hashed set is assumed reachable for some process; dict order is insertion order by the language", tech=E1),
+    "C13": dict(text="value dispatch for 11 ideal primitives (documented VLSIR names / pulse renaming), physical Mos, external module with every accepted value type; Prefixed(coef x 10^exp, prefix) incl. mantissas at the int64 boundary and 1e30; Scalar conversion of ints, floats, Decimals and every string of length <= 3 over a 13-character alphabet",
+                note="values realise at pydantic / protobuf / decimal: enumeration inside the stated boxes, no generalisation", tech=ENUM),
+    "C15": dict(text="selection by type / family / threshold over the whole enum product for 4 PDKs; every entry of every Sky130 / GF180 device table by model name with sizes / multiplier given or defaulted (valid, netlists, compile twice = once, equal params -> same call); a shared 3-level hierarchy compiled directly / by default / by name / by module; logic-cell libraries (1/16 quick, all 3148 thorough)",
+                note="finite tables: exhaustive enumeration; 3 known findings (devices with more terminals than the generic primitive)", tech=ENUM),
+    "C16": dict(text="hierarchies of depth 2-4 with shared leaves, primitive and external-module leaves, bus and scalar nets, designer signal / instance names drawn from candidate sets containing the documented ':'-joined path names: only leaf instances, one per leaf, ports unchanged, leaf-level partition of flatten(m) equals that of m; rejection only for a real name clash; crashes are violations",
+                note="names come from candidate sets (selectors), not from symbolic strings", tech=ENUM),
+    "C17": dict(text="Sims of up to 2 (quick) / 3 attributes over 17 attribute kinds (8 analyses incl. nested sweep / Monte-Carlo, options, include, lib, save in all 6 target forms, measurements, parameters, literals), 3 sweep kinds, 4 numeric forms x 6 prefixes, 3 construction styles, alone or in lists sharing or not sharing the testbench; independent expected-SimInput oracle; testbench interface",
+                note="selectors only; float fields compared with the float nearest the exact rational value", tech=ENUM),
     "C02": dict(text="22 single-fault classes planted by a symbolic fault planter (fault class x location x delta x width x array size) into a valid hierarchical design with bundle port, array, pair, port reference and no-connect; whether the mutated design really is ill-formed is decided by the independent validity predicate vlib.dsl.ref_valid; post: elaborate, to_proto and netlist each raise",
                 note="trusted: ref_valid (transcription of the property's list), CrossHair/z3; name clashes are checked on to_proto/netlist only (the export name space)", tech=E1),
     "C05": dict(text="one harness per naming site (named / unnamed / shared no-connect, implicit port-reference signal, flattened bundle member, array element, pair member, underscore retry) with the DESIGNER'S NAME A SYMBOLIC STRING (any characters, length <= 3 quick / 5 thorough) and both declaration orders; identity-level post-condition on the elaborated objects; exported partition checked in the concrete replay",
@@ -35,6 +54,7 @@ def main():
                   "source_commits": [], "add_only": True},
         "engines": [{"name": "E1-crosshair", "path": "vlib/main.py", "serves_properties": sorted(CLAIMED),
                      "kind_free_text": "CrossHair 0.0.110 symbolic execution of the real Hdl21 code on z3, partitioned over 16 workers; every counterexample replayed in plain Python before it is reported"},
+                    {"name": "nondet-set", "path": "vlib/nondet.py", "serves_properties": ["C12"], "kind_free_text": "symbolic iteration order for hdl21's sets (environment nondeterminism as a symbolic input)"},
                     {"name": "E2-decimal-model", "path": "vlib/modelload.py", "serves_properties": ["C14"],
                      "kind_free_text": "real prefix.py source exec'ed over vlib/mdec.py (Decimal model) under CrossHair"},
                     {"name": "E3-smt", "path": "harness/c14_prefix.py", "serves_properties": ["C14"], "kind_free_text": "direct z3 QF_FP queries"}],
